@@ -14,7 +14,7 @@ Lemma cov.zero (vf/deductive/C15.py): normal equations + column-centred S => zer
 import z3
 from z3 import And, BoolVal, Function, Implies, Int, IntSort, Real, RealSort
 
-from ..pyvc.core import Abstract, Obj, Unsupported, is_z3
+from ..pyvc.core import Abstract, Contract, Obj, PyList, Unsupported, is_z3, lift
 from .ndmodel import Nd, NdContract, is_nd
 
 CR = "fairlearn/preprocessing/_correlation_remover.py"
@@ -40,11 +40,16 @@ class _Base(NdContract):
         if name in ("_check_sensitive_features_in_X", "check_is_fitted") or name.endswith("check_is_fitted"):
             return None
         if name == "_create_lookup":
-            st.env["self"].fields["lookup_"] = Abstract("lookup")
+            # callee contract (CreateLookup): lookup_ maps the column names / positions of ITS argument to positions
+            st.env["self"].fields["lookup_"] = Abstract("lookup", of=args[0] if args else None)
             return args[0] if args else None
         if name == "_split_X":
             ok = args and is_nd(args[0]) and getattr(args[0], "validated", False)
             eng.oblige(st, "split_of_the_validated_matrix", BoolVal(bool(ok)), "wiring", node)
+            lk = st.env["self"].fields.get("lookup_")
+            want = self.lookup_source(st)
+            eng.oblige(st, "columns_are_looked_up_in_the_layout_the_lookup_was_built_from",
+                       BoolVal(isinstance(lk, Abstract) and lk.tag == "lookup" and (want is None or lk.of is want)), "wiring", node)
             return (self.U, self.S)
         if name == "numpy.array" and args and not is_nd(args[0]) and getattr(args[0], "items", None) == []:
             return Nd("empty", (0,), "ndarray", "ERASED", cell=lambda j: z3.RealVal(0))
@@ -59,6 +64,9 @@ class _Base(NdContract):
 class Fit(_Base):
     function = "CorrelationRemover.fit"
 
+    def lookup_source(self, st):
+        return self.X          # fit: the name -> position table must come from THIS call's X (also on a refit with re-ordered columns)
+
     def __init__(self, first_call):
         self.first_call = first_call
         self.variant = "[first call]" if first_call else "[refit]"
@@ -68,6 +76,7 @@ class Fit(_Base):
         fields = {"sensitive_feature_ids": Abstract("ids"), "alpha": Real("alpha")}
         if not self.first_call:
             fields["_n_features_in_"] = Int("previous_width")
+            fields["lookup_"] = Abstract("lookup", of=Abstract("X_of_the_previous_fit"))
         st.env.update({"self": Obj("CorrelationRemover", fields), "X": self.X, "y": None})
 
     def post(self, eng, st, status, value):
@@ -94,6 +103,9 @@ class Fit(_Base):
 
 class Transform(_Base):
     function = "CorrelationRemover.transform"
+
+    def lookup_source(self, st):
+        return None            # transform: the fitted table (same layout is the documented precondition of transform)
 
     def params(self, eng, st):
         self.common_env(st)
@@ -138,6 +150,50 @@ class Transform(_Base):
         a = self.alpha
         out.append(("output_is_alpha_residual_plus_one_minus_alpha_original",
                     Implies(And(rng, J < m - k), value.cell(I, J) == a * (UF(I, J) - d.cell(I, J)) + (1 - a) * UF(I, J))))
+        return out
+
+
+class SplitX(Contract):
+    """CorrelationRemover._split_X for a concrete width m <= 3 and k <= m ids (label S: all id values, bounded shape): the sensitive positions are
+    lookup_[id] for every id IN THE GIVEN ORDER - whatever the type of the id (an integer id is a column LABEL of a DataFrame, not a position) - and the
+    other block is every position of 0..m-1 that is no sensitive position, in increasing order."""
+    source, function = CR, "CorrelationRemover._split_X"
+
+    def __init__(self, m_, k_, int_ids):
+        self.m_, self.k_, self.int_ids = m_, k_, int_ids
+        self.variant = f"[{m_} columns, {k_} {'integer' if int_ids else 'string'} id(s)]"
+
+    def params(self, eng, st):
+        sort = IntSort() if self.int_ids else z3.StringSort()
+        self.LK = Function("lookup_position", sort, IntSort())
+        self.ids = [z3.Const(f"id{j}", sort) for j in range(self.k_)]
+        st.assume(*[And(0 <= self.LK(i), self.LK(i) < self.m_) for i in self.ids])          # _check_sensitive_features_in_X: every id is a column
+        self.X = Abstract("matrix")
+        st.env.update({"self": Obj("CorrelationRemover", {"lookup_": Abstract("lookup"), "sensitive_feature_ids": PyList(list(self.ids))}), "X": self.X})
+
+    def on_subscript(self, eng, st, node, base, index):
+        if isinstance(base, Abstract) and base.tag == "lookup":
+            return self.LK(index) if is_z3(index) and index.sort() == self.LK.domain(0) else NotImplemented
+        if base is self.X and isinstance(index, tuple) and len(index) == 2 and isinstance(index[0], Abstract) and index[0].tag == "slice" \
+                and index[0].lo is None and index[0].hi is None and isinstance(index[1], PyList):
+            return Abstract("columns", cols=list(index[1].items))
+        return NotImplemented
+
+    def on_attr(self, eng, st, node, base, attr):
+        if base is self.X and attr == "shape":
+            return (Int("n_rows"), self.m_)
+        return NotImplemented
+
+    def post(self, eng, st, status, value):
+        if status != "return" or not (isinstance(value, tuple) and len(value) == 2 and all(isinstance(v, Abstract) and v.tag == "columns" for v in value)):
+            return [("returns_the_two_column_blocks", BoolVal(False))]
+        other, sens = value[0].cols, value[1].cols
+        out = [("sensitive_block_is_the_looked_up_position_of_every_id_in_order",
+                And(*[lift(p) == self.LK(i) for p, i in zip(sens, self.ids)]) if len(sens) == len(self.ids) else BoolVal(False)),
+               ("other_block_is_in_increasing_order", BoolVal(all(isinstance(p, int) for p in other) and list(other) == sorted(set(other))))]
+        for p in range(self.m_):
+            is_sens = z3.Or(*[self.LK(i) == p for i in self.ids]) if self.ids else BoolVal(False)
+            out.append((f"position_{p}_is_kept_iff_it_is_not_sensitive", BoolVal(p in other) == z3.Not(is_sens)))
         return out
 
 
